@@ -152,6 +152,20 @@ func (fr *Frame) enterLoop(li *loopInfo, head *ssa.BasicBlock) {
 		}
 		fr.curMem = nm
 	}
+	// local cells that the loop body never stores to keep their pre-loop value
+	{
+		stored := map[*ssa.Alloc]bool{}
+		for b := range li.body {
+			for _, in := range b.Instrs {
+				if st, ok := in.(*ssa.Store); ok {
+					if al := rootAlloc(st.Addr); al != nil {
+						stored[al] = true
+					}
+				}
+			}
+		}
+		fr.preserveCells(entryMem, stored)
+	}
 	// automatic invariants for range-over-slice index phis
 	for phi, hv := range li.phiHavoc {
 		if phi.Comment == "rangeindex" {
